@@ -244,7 +244,7 @@ PROPS = {
         "nt_rule": "calls5",
         "level": "other", "module": "Resolvo.Props.C09", "imports": ["Resolvo.MDet.OnceSpec", "Resolvo.MDet.Causal"],
         "theorems": ["Resolvo.C09.candidates_requested_causally", "Resolvo.C09.queued_tasks_causal", "Resolvo.MDet.Causal.solveRun_kinv", "Resolvo.MDet.Causal.kr_getCandidates", "Resolvo.MDet.Causal.kr_onDependencies", "Resolvo.C09.history_at_most_once", "Resolvo.C09.no_request_twice", "Resolvo.MDet.solveRun_once", "Resolvo.MDet.maintains_solve", "Resolvo.MDet.maintains_getCandidates", "Resolvo.MDet.maintains_getDeps", "Resolvo.C09.at_most_once_cache"],
-        "families": [("lazy", LAZY_Q), ("conflictfree", CF_Q), ("soft", SOFT_Q), ("cache", {"quick": 1500, "thorough": 20000})],
+        "families": [("lazy", LAZY_Q), ("conflictfree", CF_Q), ("soft", SOFT_Q), ("cache", {"quick": 1500, "thorough": 20000}), ("reuse", {"quick": 8000, "thorough": 100000})],
         "explanation": "PROVED (Lean, run level, the whole model of solve, every universe / problem / fuel / cancellation plan and every history of solves on one solver with a synchronous provider): history_at_most_once / no_request_twice - the requests in the provider call log are pairwise distinct (get_candidates never twice for a package, get_dependencies never twice for a solvable) and everything requested is answered from the cache from then on (invariant `Once` maintained by every function of the model, MDet/OnceSpec.lean); cache-level at-most-once (at_most_once_cache). The structured call log of the theorem renders to the model's call log (tag mdet-ghost), which equals the real solver's log entry by entry on every case. PROVED (same scope, with or without hints): candidates_requested_causally (sync and async, every completion order) - every get_candidates request of a solve was for a package name mentioned by a requirement (any union member) or a constrains entry of the root or of a solvable whose dependencies were already in the cache; queued_tasks_causal - requirement / constraint tasks exist only for solvables whose dependencies have been obtained and that really have that requirement / constraint (invariant KInv carried through every function of the model by a Hoare logic whose contexts are stable under growth of the dependency cache, MDet/Causal.lean; the per-solve request record of the theorem is checked against the call log, tag mdet-ghost). NOT PROVED: causality of get_dependencies requests (needs an invariant on the positive literals of learnt clauses) and exactness on conflict-free problems as theorems. CHECKED PER RUN: causal order and at-most-once of the provider call log of every sync run without hints; exact call-log correspondence of SolverCache with its model.",
     },
     "C10": {
